@@ -315,8 +315,64 @@ func ruleC15(c *Ctx) {
 
 // checkJSONRelink: polyjson.Parse decodes one whole Sequence, re-adds every decoded feature to the
 // sequence it returns, and that sequence carries every other decoded field.
+// selfNormalisedFields: in the reader's family, a field is overwritten with a rewritten form of itself
+// (x.F = strings.ToUpper(x.F), TrimSpace, ...): what the document states in that field is not what Parse
+// returns whenever the two forms differ. Only this self-assignment shape is decided; other stores are
+// left to the rules above.
+func selfNormalisedFields(c *Ctx, parse *ssa.Function) {
+	var sameAddr func(a, b ssa.Value, d int) bool
+	sameAddr = func(a, b ssa.Value, d int) bool {
+		if a == b {
+			return true
+		}
+		fa, okA := a.(*ssa.FieldAddr)
+		fb, okB := b.(*ssa.FieldAddr)
+		if !okA || !okB || d > 6 || fa.Field != fb.Field || !types.Identical(fa.X.Type(), fb.X.Type()) {
+			return false
+		}
+		return sameAddr(fa.X, fb.X, d+1)
+	}
+	nStores, nFns, nBad := 0, 0, 0
+	for _, g := range family(parse) {
+		nFns++
+		eachInstr(g, func(i ssa.Instruction) {
+			st, isSt := i.(*ssa.Store)
+			if !isSt {
+				return
+			}
+			fa, isF := st.Addr.(*ssa.FieldAddr)
+			if !isF {
+				return
+			}
+			nStores++
+			cl, isCall := st.Val.(*ssa.Call)
+			if !isCall || len(cl.Call.Args) == 0 {
+				return
+			}
+			n := calleeName(cl)
+			switch n {
+			case "strings.ToUpper", "strings.ToLower", "strings.Title", "strings.ToTitle", "strings.TrimSpace", "strings.Trim", "strings.TrimLeft", "strings.TrimRight",
+				"strings.TrimFunc", "strings.TrimPrefix", "strings.TrimSuffix", "strings.Replace", "strings.ReplaceAll":
+			default:
+				return
+			}
+			ld, isLd := cl.Call.Args[0].(*ssa.UnOp)
+			if !isLd || ld.Op != token.MUL || !sameAddr(ld.X, fa, 0) {
+				return
+			}
+			fld := deref(fa.X.Type()).Underlying().(*types.Struct).Field(fa.Field).Name()
+			nBad++
+			c.bad("RELINK", "decoded fields are returned as read:"+g.Name()+":"+fld, st.Pos(), fmt.Sprintf("%s overwrites field %s with %s of itself while the document is read: a document whose %s differs from its rewritten form (other case, blanks at the ends) is not returned as written, so write-then-read does not give the record back", g.Name(), fld, n, fld))
+		})
+	}
+	if nBad == 0 {
+		c.ok("RELINK", "decoded fields are returned as read", parse.Pos(), fmt.Sprintf("no field is overwritten with a rewritten form of itself (%d stores into struct fields in the %d functions of Parse's family examined)", nStores, nFns))
+	}
+}
+
 func checkJSONRelink(c *Ctx, parse *ssa.Function, seqT types.Type) {
 	view := newFamView(parse)
+	selfNormalisedFields(c, parse)
 	tb := view.tb[parse]
 	um, n := findCall(parse, "encoding/json.Unmarshal")
 	var dec *ssa.Alloc
